@@ -56,7 +56,9 @@ def gen_case(rng):
         locs = c13.gen_locals(rng, regime)
         consts = {}
         if scheme[0] == "base" and rng.random() < 0.3:
-            consts = {"K0": rng.choice([2.0, -1.5, 0.25, 3.0]), "K1": rng.uniform(-5, 5)}
+            # names bound through locals=; half of the time they shadow a math / numpy name the generated code imports
+            n0, n1 = rng.choice([("K0", "K1"), ("K0", "K1"), ("e", "tau"), ("pi", "gamma"), ("K0", "e"), ("euler_gamma", "K1")])
+            consts = {n0: rng.choice([2.0, -1.5, 0.25, 3.0]), n1: rng.uniform(-5, 5)}
             locs = dict(locs or {}); locs.update(consts)
         idx = list(range(n))
         pref = ([j for j in idx if j >= 10] + [1, 0]) if (n > 10 and rng.random() < 0.7) else idx
